@@ -25,6 +25,8 @@ SCENARIOS = {
     'one-aborts': dict(clients=['SCU1', 'SCU2'], fail=('SCU2', 'abort')),
     'one-disconnects-mid-pdu': dict(clients=['SCU1', 'SCU2'], fail=('SCU2', 'disconnect')),
     'shared-client-ae': dict(clients=['SCU1', 'SCU1b'], fail=None, shared=True),
+    'shared-ae-two-servers': dict(clients=['SCU1'], fail=None, shared=True, two_servers=True),
+    'two-echoes': dict(clients=['SCU1', 'SCU2'], fail=None, echo=True),
     'one-rejected': dict(clients=['SCU1', 'SCU2'], fail=None, reject='SCU2'),
     'rejected-then-next': dict(clients=['SCU2', 'SCU1'], fail=None, reject='SCU2'),
     'three-clients': dict(clients=['SCU1', 'SCU2', 'SCU3'], fail=None),
@@ -57,11 +59,25 @@ def make(scn_name, only=None):
                 if spec.get('reject') and str(rq.calling_ae_title) == spec['reject']:
                     raise exceptions.AssociationRejectedError(1, 1, 3)
 
+            def on_receive_echo(self, context):
+                # application code of realistic length: other handler threads may run in the middle of it
+                e3.cur().point('handler.echo')
+                server_log.append(('echo',))
+                e3.cur().point('handler.echo2')
+                return statuses.SUCCESS
+
             def on_receive_find(self, context, ds):
                 server_log.append(('find', str(ds.PatientName)))
                 return iter([(dsgen.make('a', i), statuses.C_FIND_PENDING) for i in range(2)])
         ae = assoc.make_ae('SCP', [IMPL, EXPL, BIG], 16384, [mem_store_scp, sopclass.verification_scp, sopclass.qr_find_scp], cls=Srv)
         net.listen(('srv', 104), e3.serve_ae(ae))
+        if spec.get('two_servers'):
+            # a second entity that serves only CT: it refuses the MR context the shared client proposes
+            def ct_only_scp(asce, ctx, msg):
+                return mem_store_scp(asce, ctx, msg)
+            ct_only_scp.sop_classes = [CT]
+            ae_small = assoc.make_ae('SMALL', [IMPL, EXPL, BIG], 16384, [ct_only_scp])
+            net.listen(('small', 104), e3.serve_ae(ae_small))
         shared_ae = None
         if spec.get('shared'):
             c = CLIENTS['SCU1']
@@ -83,13 +99,26 @@ def make(scn_name, only=None):
                 ids = [pynetdicom2._new_msg_id() for _ in range(2)]
                 ids += [contextvars.copy_context().run(pynetdicom2._new_msg_id) for _ in range(2)]
                 try:
+                    if spec.get('two_servers'):
+                        # first an association with the small entity (kept open), then one with the full entity
+                        with cae.request_association({'aet': 'SMALL', 'address': 'small', 'port': 104}) as first:
+                            out['first'] = sorted(str(v.sop_class) for v in first.accepted_contexts.values())
+                            with cae.request_association({'aet': 'SCP', 'address': 'srv', 'port': 104}) as second:
+                                out['second'] = sorted(str(v.sop_class) for v in second.accepted_contexts.values())
+                                ds = dsgen.make(('pad', 10), 0, sop_class=MR, inst='1.2.1.2')
+                                out['status'] = [('1.2.1.2', int(second.get_scu(MR)(ds, 33)))]
+                        out['ended'] = 'released'
+                        out['msg_ids'] = ids
+                        return
                     with cae.request_association({'aet': 'SCP', 'address': 'srv', 'port': 104}) as asce:
                         out['negotiated'] = (asce.max_pdu_length, tuple(sorted((k, str(v.sop_class), str(v.supported_ts))
                                                                           for k, v in asce.accepted_contexts.items())))
                         ids.append(pynetdicom2._new_msg_id())
                         stat = []
                         out['status'] = stat
-                        for k, (inst, sop, pad) in enumerate(c['insts']):
+                        if spec.get('echo'):
+                            out['echo'] = [int(asce.get_scu(VERIF)(c['msg0'] + 90 + j)) for j in range(2)]
+                        for k, (inst, sop, pad) in enumerate(c['insts'] if not spec.get('echo') else []):
                             if title == 'SCU1b':
                                 inst = inst + '.9'
                             ds = dsgen.make(('pad', pad), k, sop_class=sop, inst=inst)
@@ -190,6 +219,12 @@ def judge(scn, out):
         return [(sig + (':deadlock' if out.deadlock else ':unbounded-wait'), '%r (schedule %s)' % (out.deadlock or out.overrun, sched))]
     if out.crashed:
         viol.append((sig + ':thread-crash:%s' % out.crashed[0][1].split('(')[0], 'thread %s died: %s (schedule %s)' % (out.crashed[0][0], out.crashed[0][1], sched)))
+    if spec.get('two_servers'):
+        mine = out.results.get('SCU1', {})
+        if mine.get('second') != sorted([CT, MR]) or mine.get('status') != [('1.2.1.2', 0)] or mine.get('ended') != 'released':
+            viol.append((sig + ':later-association-affected', 'after an association in which the peer refused the MR context, the next association of the '
+                         'same entity with a peer serving MR gave %r (schedule %s)' % ({k: v for k, v in mine.items() if k != 'msg_ids'}, sched)))
+        return viol
     for title in spec['clients']:
         failing = spec['fail'] and spec['fail'][0] == title
         if failing and spec['fail'][1] == 'disconnect':
@@ -209,12 +244,47 @@ def judge(scn, out):
         base = 'SCU1' if title == 'SCU1b' else title
         if spec['fail'] and spec['fail'] == (title, 'disconnect'):
             continue
-        if spec.get('reject') == title:
+        if spec.get('reject') == title or spec.get('echo'):
             continue
         insts = CLIENTS[base]['insts'][:1] if (spec['fail'] and spec['fail'][0] == title) else CLIENTS[base]['insts']
         want += [(base, i + ('.9' if title == 'SCU1b' else '')) for i, _, _ in insts]
     if seen != sorted(want):
         viol.append((sig + ':server-pairs', 'server handled (client, instance) pairs %r, sent were %r (schedule %s)' % (seen, sorted(want), sched)))
+    # on every association, each response answers a request made on that same association
+    from .. import ref_pdu, ref_cmd
+    per = {}
+    for name, data in out.wire:
+        per.setdefault(name, bytearray()).extend(data)
+    for name in [n for n in per if n.startswith('c')]:
+        peer = 's' + name[1:]
+
+        def cmds(raw):
+            res = []
+            buf = b''
+            pdus, _ = ref_pdu.split_stream(bytes(raw))
+            for p in pdus:
+                try:
+                    t = ref_pdu.parse(p)
+                except ref_pdu.RefError:
+                    continue
+                if t['pdu'] != 4:
+                    continue
+                for pdv in t['pdvs']:
+                    if pdv['data'] and pdv['data'][0] in (1, 3):
+                        buf += pdv['data'][1:]
+                        if pdv['data'][0] == 3:
+                            try:
+                                res.append(ref_cmd.read(buf))
+                            except ref_cmd.CmdError:
+                                pass
+                            buf = b''
+            return res
+        asked = set(ref_cmd.value(e, 0x0110) for e in cmds(per[name]) if ref_cmd.value(e, 0x0110) is not None)
+        for e in cmds(per.get(peer, b'')):
+            rid = ref_cmd.value(e, 0x0120)
+            if rid is not None and rid not in asked:
+                viol.append((sig + ':foreign-message-id', 'a response on connection %s answers message id %r, but only %r were requested there (schedule %s)' % (
+                    peer, rid, sorted(asked), sched)))
     if [e for e in out.open_ends if e != 'peer']:
         viol.append((sig + ':transport-left-open', 'endpoints left open %r (schedule %s)' % (out.open_ends, sched)))
     return viol
@@ -234,12 +304,24 @@ def work(args):
         if v and first[0] is None:
             first[0] = list(out.choices)
         viol.extend(v)
-    if root is None:
-        out = e3.execute(make(scn), [])
-        on(out)
-        stats = {'executions': 1, 'decisions': len(out.points), 'capped': False}
-    else:
-        stats = e3.explore(make(scn), bound, on, max_exec=4000, root=(root[0], root[1]), count_all=True)
+    try:
+        if root is None:
+            out = e3.execute(make(scn), [])
+            on(out)
+            stats = {'executions': 1, 'decisions': len(out.points), 'capped': False}
+        else:
+            stats = e3.explore(make(scn), bound, on, max_exec=4000, root=(root[0], root[1]), count_all=True)
+    except common.HarnessError as exc:
+        if 'schedule prefix diverged' not in str(exc):
+            raise
+        # The scheduler, transport and clock are deterministic, so the same choice prefix must reproduce the same execution.
+        # If it does not, the behaviour of this execution depends on state that earlier associations of the same process
+        # left behind in the library - which is what this property forbids.
+        viol.append(('c20:%s:history-dependent-execution' % scn,
+                     'replaying schedule prefix %r did not reproduce the execution it was taken from (%s): the library keeps state '
+                     'across associations of one process' % (root[0] if root else [], exc)))
+        first[0] = list(root[0]) if root else []
+        stats = {'executions': 1, 'decisions': 0, 'capped': False}
     dedup = {}
     for s, m in viol:
         dedup.setdefault(s, m)
@@ -270,7 +352,7 @@ def main(tier, seed):
     # reference (solo) observations: each computed in a fresh process that has executed nothing else, so that state a
     # defect keeps at class or module level cannot leak into the reference
     ctx = multiprocessing.get_context('fork')
-    keys = [(scn, t) for scn, sp in SCENARIOS.items() for t in sp['clients'] if not (sp['fail'] and sp['fail'] == (t, 'disconnect'))]
+    keys = [(scn, t) for scn, sp in SCENARIOS.items() for t in sp['clients'] if not (sp['fail'] and sp['fail'] == (t, 'disconnect')) and not sp.get('two_servers')]
     with ctx.Pool(min(common.NPROC, len(keys)), maxtasksperchild=1) as pool:
         for k, v in pool.imap(_solo_job, keys, chunksize=1):
             _SOLO[k] = v
